@@ -26,3 +26,22 @@ def untraced():
     except Exception:
         pass
     return _Null()
+
+
+_PRISTINE = {}
+
+
+def fresh_class_state(*classes):
+    """give every class-level mutable container (dict / list / set attribute) of the classes under analysis the value it had at import
+    time.  A harness body is re-executed once per explored path inside ONE process; state the code keeps on a class would otherwise leak
+    from one path into the next (a fresh process per run is what the tool really sees)."""
+    import copy
+    for cls in classes:
+        for klass in cls.__mro__:
+            if klass.__module__.split(".")[0] != "smpl_extract":
+                continue
+            key = klass
+            if key not in _PRISTINE:
+                _PRISTINE[key] = {k: copy.deepcopy(v) for k, v in vars(klass).items() if isinstance(v, (dict, list, set))}
+            for k, v in _PRISTINE[key].items():
+                setattr(klass, k, copy.deepcopy(v))
